@@ -239,9 +239,37 @@ struct Driver {
             ap.ttl = std::chrono::seconds(60); ap.manifest_uri = manifest_uri(ch, cls == "idmismatch" || cls == "assignabsent" ? "ok" : cls);
             if (cls == "assignabsent") ap.assigned_shards = {200};
             if (c.i("assign", 0)) ap.assigned_shards = {1};
+            // the endpoint text a peer advertises is attacker-chosen; the node parses it much later (fetch retries once the session is gone)
+            const std::string ep = c.s("ep", "ok");
+            if (ep == "hugeport") ap.endpoint = "127.0.0.1:99999999999999999999999";
+            else if (ep == "port65536") ap.endpoint = "127.0.0.1:65536";
+            else if (ep == "port0") ap.endpoint = "127.0.0.1:0";
+            else if (ep == "noport") ap.endpoint = "127.0.0.1";
+            else if (ep == "emptyport") ap.endpoint = "127.0.0.1:";
+            else if (ep == "neg") ap.endpoint = "127.0.0.1:-1";
+            else if (ep == "alpha") ap.endpoint = "host.example:http";
+            else if (ep == "colons") ap.endpoint = ":::::";
+            else if (ep == "long") ap.endpoint = std::string(6000, 'h') + ":" + std::string(300, '7');
+            else if (ep == "nul") ap.endpoint = std::string("a\0b:1\0", 7);
+            else if (ep == "v6") ap.endpoint = "[::1]:99999";
+            else if (ep == "space") ap.endpoint = " 127.0.0.1 : 80 ";
             protocol::Message m{}; m.type = protocol::MessageType::Announce; m.payload = ap;
             ensure_stub(p); out = deliver(p, sign(p, m), sock, exc);
-            e.i("c", ch).s("m", cls);
+            e.i("c", ch).s("m", cls).s("ep", ep);
+        } else if (c.op == "peerdrop") {
+            // the peer's session ends (its stub closes); what the node learnt from it stays
+            if (stub.count(p)) { ::close(stub[p]); stub.erase(p); }
+            for (int i = 0; i < 2000 && Acc::sessions(*a).is_connected(pid(p)); ++i) usleep(1000);
+            out = "dropped";
+        } else if (c.op == "ticks") {
+            // the daemon's loop: tick() with time passing (fetch retries, cleanup); an exception out of tick() ends the daemon
+            out = "handled";
+            for (long i = 0; i < c.i("n", 10) && out == "handled"; ++i) {
+                vclock::advance_ms(c.i("ms", 1500));
+                try { std::scoped_lock lk(node_mutex); a->tick(); }
+                catch (const std::exception& ex) { out = "threw"; exc = ex.what(); }
+                catch (...) { out = "threw"; exc = "unknown"; }
+            }
         } else if (c.op == "chunk") {
             std::vector<std::uint8_t> cipher = last_cipher.count(ch) ? last_cipher[ch] : payload_bytes(ch);   // matches the last manifest made for ch
             std::string dc = c.s("d", "right");
